@@ -283,6 +283,37 @@ func parseModelValue(k types.BasicKind, txt string) value {
 // model extracts values for all verifnd draws on the path under the current solver scope
 // (after a Sat check).
 func (p *pathCtx) model() []NDValue {
+	// prefer small magnitudes for integer draws (readable, natively replayable counterexamples)
+	pushed := 0
+	defer func() {
+		for ; pushed > 0; pushed-- {
+			p.solver.Pop()
+		}
+	}()
+	nmin := 0
+	for _, nd := range p.nds {
+		if nd.Term == nil || (nd.Kind != "int" && nd.Kind != "int64") || nmin >= 24 {
+			continue
+		}
+		nmin++
+		for _, lim := range []uint64{64, 1 << 20} {
+			c := smt.And(smt.App("bvsle", smt.Bool, smt.BVLit(-lim, 64), nd.Term), smt.App("bvsle", smt.Bool, nd.Term, smt.BVLit(lim, 64)))
+			p.solver.Push()
+			p.solver.Assert(c)
+			r, err := p.solver.Check()
+			if err == nil && r == smt.Sat {
+				pushed++
+				break
+			}
+			p.solver.Pop()
+		}
+	}
+	if pushed > 0 || nmin > 0 {
+		// re-establish a model in the current scope
+		if r, err := p.solver.Check(); err != nil || r != smt.Sat {
+			panic(engineError{"model minimisation lost satisfiability"})
+		}
+	}
 	var terms []*smt.Term
 	var idx []int
 	out := make([]NDValue, len(p.nds))
